@@ -212,6 +212,28 @@ theorem C05_run_waits_all {P : Params} {s : State} (hr : Reachable P s) (e : Err
     ∀ l p, s.pc l = some p → p = .done :=
   run_waits_all hr e hd
 
+/-- C05: a waiting set is published only while its owner is between `waiting.Swap(&targets)` and the (deferred)
+    `waiting.Swap(nil)`; in particular a target that has finished — also one that reported a cycle — has withdrawn it,
+    so no later cycle walk can read a stale set (a leftover self-loop would be walked for ever). -/
+theorem C05_unpublished_when_done {P : Params} {s : State} (hr : Reachable P s) (l : Label)
+    (hf : (s.status l).final = true) : s.waiting l = none := by
+  have inv := hr.inv
+  obtain ⟨p, hp⟩ := inv.pc_of_not_idle (l := l) (by intro c; rw [c] at hf; cases hf)
+  have hpf : p.final = true := by
+    cases h : p.final with
+    | true => rfl
+    | false => rw [inv.running_of hp h] at hf; cases hf
+  rw [inv.waiting_of hp]
+  cases p <;> simp_all [PC.final, PC.published]
+
+/-- … and exactly the threads inside that window are published -/
+theorem C05_published_iff {P : Params} {s : State} (hr : Reachable P s) (l : Label) :
+    (s.waiting l).isSome = true ↔ ∃ p, s.pc l = some p ∧ p.published = true := by
+  have inv := hr.inv
+  cases hp : s.pc l with
+  | none => have := inv.waiting l; rw [hp] at this; simp [this, expWaiting]
+  | some p => rw [inv.waiting_of hp]; cases h : p.published <;> simp [h]
+
 /-- C05: on a graph whose part reachable from the requested target is acyclic, no cyclic-dependency error is
     ever found or handed to anyone. -/
 theorem C05_no_false_cycle {P : Params} (hac : ∀ x, ReachRT P P.root x → ¬ Path P x x)
